@@ -55,6 +55,7 @@ type Exec struct {
 	nPaths    int
 	nExits    int
 	trusted   map[string]bool // names of assumed contracts / intrinsics / opaque calls used
+	curCom    *ssa.CallCommon // the call being dispatched (for out-parameter havoc of opaque calls)
 	typeIDs   map[string]int
 	typeByID  map[int]types.Type
 	globalIDs map[*ssa.Global]int
@@ -1356,6 +1357,8 @@ func (x *Exec) callResolved(st *State, fr *Frame, instr ssa.CallInstruction, com
 	if instr != nil {
 		resInstr = instr
 	}
+	x.curCom = com
+	defer func() { x.curCom = nil }()
 	if com.IsInvoke() {
 		iv := recv.(IfaceV)
 		// concrete dispatch when the dynamic type is known
@@ -1454,7 +1457,7 @@ func (x *Exec) callStatic(st *State, fr *Frame, resInstr ssa.Instruction, fn *ss
 		return nil
 	}
 	// external function without contract: opaque, unconstrained results
-	x.trusted["opaque external call "+fn.String()+" (results unconstrained, modelled heap unchanged)"] = true
+	x.trusted["opaque external call "+fn.String()+" (results unconstrained, modelled heap unchanged except caller locals whose address is passed)"] = true
 	return x.opaqueCall(st, fr, resInstr, fn.String(), x.funcValue(fn, nil), "", args, fn.Signature.Results(), isDefer)
 }
 
@@ -1491,10 +1494,51 @@ func (x *Exec) opaqueCall(st *State, fr *Frame, resInstr ssa.Instruction, name s
 	ev.Heap = copyHeap(st.heap) // the heap the callee saw (for at(call, e))
 	st.events = append(st.events, ev)
 	x.havocFor(st, fr, name)
+	x.havocOutParams(st, fr, name)
 	if !isDefer && resInstr != nil {
 		x.bindResult(st, fr, resInstr, res)
 	}
 	return forks
+}
+
+// havocOutParams: an opaque callee that is handed the address of a local variable of the caller inside an
+// interface value (the decoder idiom `Unmarshal(data, &v)`) may write it; the variable is unknown afterwards.
+func (x *Exec) havocOutParams(st *State, fr *Frame, name string) {
+	com := x.curCom
+	if com == nil || fr == nil || retainsOnly[shortCallee(name)] {
+		return
+	}
+	for _, a := range com.Args {
+		mi, ok := a.(*ssa.MakeInterface)
+		if !ok {
+			continue // a plain pointer argument: the callee's effect is what its contract / `havoc-on` says
+		}
+		a = mi.X
+		if _, isPtr := a.Type().Underlying().(*types.Pointer); !isPtr || !ownAllocation(a) {
+			continue
+		}
+		if al, ok := a.(*ssa.Alloc); ok && al.Comment == "complit" {
+			continue // a freshly built literal handed over, not an out-parameter
+		}
+		v, ok := fr.regs[a]
+		if !ok {
+			continue
+		}
+		if p, ok := v.(PtrV); ok && !p.Elem {
+			x.store(st, p, x.freshValue(st, "outp", pointee(p)))
+		}
+	}
+}
+
+// callees that keep the pointer they are given in an `any` parameter without writing through it
+var retainsOnly = map[string]bool{"Store": true, "LoadOrStore": true, "Swap": true, "PushBack": true, "PushFront": true,
+	"WithValue": true, "Put": true, "Set": true, "Add": true}
+
+func shortCallee(name string) string {
+	if i := strings.LastIndex(name, "."); i >= 0 {
+		return name[i+1:]
+	}
+	return name
 }
 
 // havocFor applies the `havoc-on <callee>: items` declarations of the root contract.
